@@ -214,6 +214,19 @@ fn raw_op(addr: usize, kind: Kind) -> bool {
 		return crate::t2::raw_op(t, addr, kind);
 	}
 	sample_poison();
+	// is the thread's key obtainable while one of its holds is being released? (mark 24)
+	if matches!(kind, Kind::UX | Kind::US) {
+		let skip = CTRL.with(|c| {
+			let c = c.borrow();
+			c.dead.is_some() || c.probe
+		});
+		if !skip {
+			if let Some(k) = happylock::ThreadKey::get() {
+				drop(k);
+				log("m24".to_string());
+			}
+		}
+	}
 	let out = CTRL.with(|c| {
 		let mut c = c.borrow_mut();
 		if c.dead.is_some() {
